@@ -293,15 +293,52 @@ def _chars(s):
     return list(s)
 
 
-def build_catalog(tier, layers, shorter=0):
-    """shorter: subtract from every enumeration bound (C07 quick re-uses the C04 enumeration one symbol shorter)"""
+def alphabet_sizes(tier, shorter=0):
+    """index in ALPHABETS -> number of strings enumerated for it"""
+    q = tier == "quick"
+    out = {}
+    for i, (name, syms, nq, nt, pre, suf) in enumerate(ALPHABETS):
+        n = nq if q else nt
+        if n <= 0:
+            continue
+        n = max(1, n - shorter)
+        k = len(_syms(syms))
+        out[i] = sum(k ** j for j in range(n + 1))
+    return out
+
+
+def slices(tier, layers, shorter=0, limit=250000):
+    """Split the work into batches that fit in memory: [(layers, alphabet indices or None)]"""
+    rest = tuple(l for l in layers if l != "enum")
+    out = []
+    if "enum" in layers:
+        cur, tot = [], 0
+        for i, n in sorted(alphabet_sizes(tier, shorter).items(), key=lambda x: -x[1]):
+            if cur and tot + n > limit:
+                out.append((("enum",), cur))
+                cur, tot = [], 0
+            cur.append(i)
+            tot += n
+        if cur:
+            out.append((("enum",), cur))
+    if rest:
+        if len(out) == 1:
+            out = [(("enum",) + rest, out[0][1])]
+        else:
+            out.append((rest, None))
+    return out
+
+
+def build_catalog(tier, layers, shorter=0, only=None):
+    """shorter: subtract from every enumeration bound (C07 re-uses the C04 enumeration one symbol shorter);
+    only: indices into ALPHABETS to enumerate in this batch (None = all)"""
     q = tier == "quick"
     ctx = [dict(name=c["name"], ver=c["ver"], dt=c["dt"], fields=[_chars(f) for f in c["fields"]], hole=c["hole"],
                 fpre=_chars(c["fpre"])) for c in CONTEXTS]
     alph = []
-    for name, syms, nq, nt, pre, suf in ALPHABETS:
+    for ai, (name, syms, nq, nt, pre, suf) in enumerate(ALPHABETS):
         n = (nq if q else nt)
-        if n <= 0:
+        if n <= 0 or (only is not None and ai not in only):
             continue
         n = max(1, n - shorter)
         alph.append(dict(ctx=CTX_IDX[name], pre=_chars(pre), suf=_chars(suf), syms=[_chars(s) for s in _syms(syms)], n=n))
@@ -339,11 +376,11 @@ MC_CFG = "SPECIFICATION Spec\nCONSTRAINT Emit\nCHECK_DEADLOCK FALSE\n"
 CF_RE = None
 
 
-def generate(tier, layers, name, shorter=0):
+def generate(tier, layers, name, shorter=0, only=None):
     """Run MC_Lex; returns (cases, tlc stats, verdict histogram). A case is a dict with kind f/l/d/t."""
     import re
     wd = tlc.workdir(name)
-    data = build_catalog(tier, layers, shorter)
+    data = build_catalog(tier, layers, shorter, only)
     cf = os.path.join(wd, "lexcat.json")
     with open(cf, "w") as f:
         json.dump(data, f)
@@ -773,26 +810,50 @@ def _violations(out, prop, cases, rejects):
         out.others[p] = out.others.get(p, 0) + n
 
 
-def _coverage(out, tier, cases, st, hist, nstates, t_gen, t_run, t_val, layers):
+class _Cov:
+    """coverage aggregated over the batches of one check"""
+    def __init__(self):
+        self.kinds, self.hist = {}, {}
+        self.rows = self.calls = self.cases = self.nontrivial = 0
+        self.spec_states = self.spec_generated = self.trace_states = 0
+        self.t_gen = self.t_run = self.t_val = 0.0
+        self.samples = []
+
+    def add(self, cases, st, hist, nstates, t_gen, t_run, t_val):
+        for c in cases:
+            self.kinds[c["kind"]] = self.kinds.get(c["kind"], 0) + 1
+            self.rows += len(c["res"])
+            self.calls += sum(len(r) for r in c["res"])
+            if c["kind"] in ("f", "l", "d"):
+                if c["mc"] == "acc" or any(r[0] == "ok" for r in c["res"]):
+                    self.nontrivial += 1
+            elif any("ok" in r[1:] or r == ["ok"] for r in c["res"]):
+                self.nontrivial += 1
+        self.cases += len(cases)
+        for k, n in hist.items():
+            self.hist[k] = self.hist.get(k, 0) + n
+        self.spec_states += st[1]
+        self.spec_generated += st[0]
+        self.trace_states += nstates
+        self.t_gen += t_gen; self.t_run += t_run; self.t_val += t_val
+        if len(self.samples) < 5:
+            for c in cases[:: max(1, len(cases) // 3)][:3]:
+                self.samples.append(dict(kind=c["kind"], input=case_text(c)[:120], grammar=c["mc"], observed=c["res"][:2]))
+
+
+def _coverage(out, tier, cov, layers, shorter):
     q = tier == "quick"
-    kinds = {}
-    for c in cases:
-        kinds[c["kind"]] = kinds.get(c["kind"], 0) + 1
-    rows = sum(len(c["res"]) for c in cases)
-    calls = sum(len(r) for c in cases for r in c["res"])
-    nontrivial = sum(1 for c in cases if c["kind"] in ("f", "l", "d") and (
-        c["mc"] == "acc" or any(r[0] == "ok" for r in c["res"]))) + \
-        sum(1 for c in cases if c["kind"] in ("t", "a") and any("ok" in r[1:] or (len(r) == 1 and r[0] == "ok") for r in c["res"]))
     out.add_cov(
-        evaluations=calls, observation_rows=rows, cases=len(cases), cases_by_kind=kinds,
-        distinct_nontrivial=nontrivial,
+        evaluations=cov.calls, observation_rows=cov.rows, cases=cov.cases, cases_by_kind=cov.kinds,
+        distinct_nontrivial=cov.nontrivial,
         rule="distinct cases (after de-duplication of equal texts) in which either the grammar accepts the text "
              "(verdict of Lex.tla printed by MC_Lex) or gfapy accepted it at some level, i.e. the cases on which an "
              "acceptance decision is actually exercised; for raw texts / API strings: at least one call succeeded",
-        grammar_verdicts={"%s:%s" % k: n for k, n in sorted(hist.items())},
-        spec_states=st[1], spec_states_generated=st[0], trace_states=nstates,
+        grammar_verdicts={"%s:%s" % k: n for k, n in sorted(cov.hist.items())},
+        spec_states=cov.spec_states, spec_states_generated=cov.spec_generated, trace_states=cov.trace_states,
         layers=list(layers),
-        alphabets={"%s#%d" % (name, i): dict(symbols=_syms(sy), max_symbols=(nq if q else nt), prefix=pre, suffix=suf)
+        alphabets={"%s#%d" % (name, i): dict(symbols=_syms(sy), max_symbols=max(1, (nq if q else nt) - shorter),
+                                             prefix=pre, suffix=suf)
                    for i, (name, sy, nq, nt, pre, suf) in enumerate(ALPHABETS) if (nq if q else nt) > 0},
         mutation_representatives=_syms(REPS_QUICK if q else REPS_THOROUGH),
         catalogue_strings=sum(len(v) for v in CATALOGUE.values()),
@@ -803,9 +864,8 @@ def _coverage(out, tier, cases, st, hist, nstates, t_gen, t_run, t_val, layers):
         exhaustive=True,
         exhaustive_scope="every string up to the stated number of symbols over each stated alphabet, every single-point "
                          "mutation of the catalogue, every line / document variant of the stated tables; not the unbounded languages",
-        wall_generate_s=round(t_gen, 1), wall_gfapy_s=round(t_run, 1), wall_tracelex_s=round(t_val, 1))
-    for c in cases[:: max(1, len(cases) // 5)][:5]:
-        out.samples.append(dict(kind=c["kind"], input=case_text(c)[:120], grammar=c["mc"], observed=c["res"][:3]))
+        wall_generate_s=round(cov.t_gen, 1), wall_gfapy_s=round(cov.t_run, 1), wall_tracelex_s=round(cov.t_val, 1))
+    out.samples += cov.samples[:5]
     out.assumptions += [
         "TLC 1.8 and the TLA+ semantics of spec/Lex.tla, MC_Lex.tla, TraceLex.tla",
         "Lex.tla is my transcription of the GFA1 / GFA2 grammars (the specification texts are not in the sandbox); "
@@ -815,18 +875,26 @@ def _coverage(out, tier, cases, st, hist, nstates, t_gen, t_run, t_val, layers):
     ]
 
 
-def _run(out, tier, prop, layers, levels, extra=()):
-    t0 = time.time()
-    cases, st, hist = generate(tier, layers, "lex-%s-mc" % prop, shorter=1 if (prop == "C07" and tier == "quick") else 0)
-    cases = cases + list(extra(len(cases) + 1)) if extra else cases
-    t1 = time.time()
-    run_cases(cases, levels)
-    t2 = time.time()
-    rejects, nstates = validate(cases, "lex-%s-val" % prop)
-    t3 = time.time()
-    _violations(out, prop, cases, rejects)
-    _coverage(out, tier, cases, st, hist, nstates, t1 - t0, t2 - t1, t3 - t2, layers)
-    return cases, rejects
+def _run(out, tier, prop, layers, levels, extra=None):
+    os.environ["VERIF_TIER"] = tier
+    shorter = 1 if prop == "C07" else 0
+    cov = _Cov()
+    first = 1
+    batches = slices(tier, layers, shorter)
+    for bi, (lay, only) in enumerate(batches):
+        t0 = time.time()
+        cases, st, hist = generate(tier, lay, "lex-%s-mc" % prop, shorter=shorter, only=only)
+        if extra and bi == len(batches) - 1:
+            cases = cases + list(extra(len(cases) + 1))
+        t1 = time.time()
+        run_cases(cases, levels)
+        t2 = time.time()
+        rejects, nstates = validate(cases, "lex-%s-val" % prop)
+        t3 = time.time()
+        _violations(out, prop, cases, rejects)
+        cov.add(cases, st, hist, nstates, t1 - t0, t2 - t1, t3 - t2)
+        del cases, rejects
+    _coverage(out, tier, cov, layers, shorter)
 
 
 def check_c04(out, tier, seed):
